@@ -203,6 +203,21 @@ def check(col, prog, tier, profile, fixture=None):
                 col.ok("X1" + sfx, loc, key, "%s; depth max %d, balanced" % ("; ".join(lines), m.maxdepth))
             else:
                 col.violation("X1" + sfx, key, loc, "%s: the x87 block does not compute the specified result: %s" % (b.path, why), {"lines": lines})
+    # conversions between f64 and f80 are the x87 load/store pair (checked above as X1 blocks); a conversion written as
+    # bit manipulation is an algorithm of its own (subnormals, NaN payloads, rounding) that no rule here decides
+    for fb in crate.bodies:
+        imp_ = crate.impl_of(fb)
+        if imp_ is None or fb.is_closure or fb.name != "from" or not str(imp_.get("trait") or "").endswith("convert::From"):
+            continue
+        tys = {str(imp_.get("self_ty")), str((imp_.get("trait_args") or [""])[-1])}
+        if tys != {"f80", "f64"}:
+            continue
+        has_asm = any(blk["term"]["k"] == "asm" for blk in fb.blocks) or any(any(blk["term"]["k"] == "asm" for blk in h_.blocks) for h_ in util.reach_private(crate, fb))
+        key = "%s|x87-conversion" % fk(fb)
+        if has_asm:
+            col.ok("X1" + sfx, fb.loc(), key, "conversion goes through the FPU (fld/fstp of the two widths)", nontrivial=False)
+        else:
+            col.violation("X1" + sfx, key, fb.loc(), "%s is not the x87 load/store pair: a hand-written widening/narrowing of the bit pattern is not verified here (subnormal exponents, NaN payloads and rounding are exactly where such code goes wrong)" % fb.path)
     # operators that carry no x87 block at all must be a recognised exact equivalent
     required = [("Add", "add"), ("Sub", "sub"), ("Mul", "mul"), ("Div", "div"), ("Neg", "neg")]
     for tr_, nm_ in required:
